@@ -2,6 +2,7 @@ package nc
 
 import (
 	"go/token"
+	"go/types"
 	"strings"
 
 	"golang.org/x/tools/go/ssa"
@@ -437,4 +438,344 @@ func (r *Run) c02ResultOwned() {
 	}
 	r.PathsExplored += sub.PathsExplored
 	r.Floor("pointer-like fields of the result message whose ownership was decided", n, 1)
+}
+
+// ---------------------------------------------------------------------------
+// Calls a function performs, directly or through a local table of forwarding closures
+
+// c02Event is one call that a function performs when it runs: the instruction at which it happens, the declared
+// function that runs, and - when the instruction is the call of a table loop - the position of the table entry.
+type c02Event struct {
+	at     ssa.CallInstruction
+	callee *ssa.Function
+	sub    int                      // index of the table entry (0 for a direct call)
+	loop   *Loop                    // the table loop, nil for a direct call
+	errOut map[*ssa.BasicBlock]bool // blocks reachable from the exits the table loop takes on an entry's error
+}
+
+// c02CallEvents lists the calls fn performs:
+//
+//   - every static call of a declared function or method (go statements excluded), as itself;
+//   - for the ladder `if err := a(..); err != nil { return err }; if err := b(..); err != nil { return err }` written as
+//     a table, `steps := []func() error{func() error { return a(..) }, func() error { return b(..) }}` run by
+//     `for _, st := range steps { if err := st(); err != nil { return err } }`: one event per table entry, in index
+//     order, at the instruction `st()`. c15TableLoop establishes that the table is a literal with exactly one store per
+//     index made before the loop, that the loop calls entry 0, 1, .., N-1 in this order, every iteration, that it is left
+//     early only on a non-nil error result of the entry just called, and that nothing else happens in it; c02Forwarded
+//     establishes that calling entry k unconditionally calls the declared function and hands back its result. The
+//     table loop must not lie inside another loop (otherwise entry 0 would run again after entry N-1).
+//
+// An entry that is not such a forwarding closure makes the whole table unusable (no events for it): the order of the
+// other entries relative to what that entry does would not be known.
+func c02CallEvents(fn *ssa.Function, loops []*Loop) []c02Event {
+	var out []c02Event
+	Instrs(fn, func(b *ssa.BasicBlock, _ int, in ssa.Instruction) {
+		ci, ok := in.(ssa.CallInstruction)
+		if !ok {
+			return
+		}
+		if _, isGo := in.(*ssa.Go); isGo {
+			return
+		}
+		if c := ci.Common().StaticCallee(); c != nil {
+			if _, isClosure := ci.Common().Value.(*ssa.MakeClosure); !isClosure {
+				out = append(out, c02Event{at: ci, callee: c})
+				return
+			}
+		}
+		call, isCall := in.(*ssa.Call)
+		if !isCall || call.Call.IsInvoke() || len(call.Call.Args) != 0 {
+			return
+		}
+		l := InnermostLoop(loops, b)
+		if l == nil || len(OuterLoops(loops, l.Header)) != 1 {
+			return
+		}
+		vals, errExits, isTab := c15TableLoop(l, call, call.Call.Value)
+		if !isTab {
+			return
+		}
+		var evs []c02Event
+		errOut := c15ReachableFrom(errExits)
+		for k, v := range vals {
+			callee := c02Forwarded(v, fn)
+			if callee == nil {
+				return
+			}
+			evs = append(evs, c02Event{at: ci, callee: callee, sub: k, loop: l, errOut: errOut})
+		}
+		out = append(out, evs...)
+	})
+	return out
+}
+
+// c02Forwarded: v is a closure made in fn, without parameters, whose body is one basic block that only reads
+// captured variables (loads, field addresses), makes exactly one call - a static call of a declared function or
+// method - and returns the results of that call unchanged. Calling v therefore calls that function exactly once,
+// unconditionally, and yields its result (the same notion as c15EffectiveCall's thin wrapper, for a closure that is
+// stored in a table instead of being called by name). Returns the function called, nil if v is anything else.
+func c02Forwarded(v ssa.Value, fn *ssa.Function) *ssa.Function {
+	mc, ok := v.(*ssa.MakeClosure)
+	if !ok || mc.Parent() != fn {
+		return nil
+	}
+	body, _ := mc.Fn.(*ssa.Function)
+	if body == nil || len(body.Blocks) != 1 || len(body.Params) != 0 || body.Recover != nil {
+		return nil
+	}
+	var inner *ssa.Call
+	var ret *ssa.Return
+	for _, in := range body.Blocks[0].Instrs {
+		switch x := in.(type) {
+		case *ssa.DebugRef, *ssa.FieldAddr, *ssa.Field, *ssa.Extract:
+		case *ssa.UnOp:
+			if x.Op != token.MUL {
+				return nil
+			}
+		case *ssa.Call:
+			if inner != nil {
+				return nil
+			}
+			inner = x
+		case *ssa.Return:
+			ret = x
+		default:
+			return nil
+		}
+	}
+	if inner == nil || ret == nil || inner.Call.IsInvoke() {
+		return nil
+	}
+	callee, _ := inner.Call.Value.(*ssa.Function)
+	if callee == nil || callee.Parent() != nil {
+		return nil
+	}
+	if tup, isTup := inner.Type().(*types.Tuple); isTup {
+		if len(ret.Results) != tup.Len() {
+			return nil
+		}
+		for i, rv := range ret.Results {
+			ex, isEx := rv.(*ssa.Extract)
+			if !isEx || ex.Tuple != ssa.Value(inner) || ex.Index != i {
+				return nil
+			}
+		}
+	} else if len(ret.Results) != 1 || ret.Results[0] != ssa.Value(inner) {
+		return nil
+	}
+	return callee
+}
+
+// ---------------------------------------------------------------------------
+// All-to-one redistribution written as one loop
+
+// allToOneLoop recognises the redistribution "every quota becomes 0, then the recipient R gets v" written as a single
+// loop over the species list,
+//
+//	for _, sp := range p.Species { if sp == R { sp.ExpectedOffspring = v } else { sp.ExpectedOffspring = 0 } }
+//
+// and returns v: after the loop the quotas of the listed species total v, exactly as after the zeroing loop followed by
+// `R.ExpectedOffspring = v` (both under the walker's standing reading that the entries of the species list are
+// distinct species). What is established:
+//   - l runs its body once for every position of recv.Species and is left only by exhaustion (fullCover; covered, ph
+//     and d are its results), it contains no inner loop, and every quota store in it addresses the quota of the species
+//     of the current position;
+//   - on EVERY path of one iteration (EnumIterPaths) a quota store is passed, and the last one passed decides the quota
+//     the species is left with: it is the constant 0 and the path has taken an outcome that says `species != R`, or it
+//     is v and the path has taken an outcome that says `species == R` (CmpFact: any spelling, either branch order;
+//     `sp.q = 0; if sp == R { sp.q = v }` is covered as well). So the species identical to R ends with v and every
+//     other one with 0 - no species keeps an old quota and none but R receives v;
+//   - R and v are the same values on all paths and are computed outside the loop;
+//   - R is a species of the very list the loop runs over, and is not nil whenever the list has an entry
+//     (c02RecipientExists - the fact apportion.recipient records for the recipient of the make-up offspring): exactly
+//     one position holds R, so v is handed out once;
+//   - the list field is not assigned on any way to the loop (the list R was chosen from is the list processed).
+func (w *c02QWalk) allToOneLoop(l *Loop, ph *ssa.Phi, d int64, covered bool, list string, stores []*ssa.Store) (ssa.Value, bool) {
+	if !covered || ph == nil || len(stores) == 0 {
+		return nil, false
+	}
+	loops := Loops(w.fn)
+	for _, o := range loops {
+		if o.Header != l.Header && l.Blocks[o.Header] {
+			return nil, false
+		}
+	}
+	inLoop := map[*ssa.Store]bool{}
+	for _, s := range stores {
+		if !w.elemQuotaAddr(s.Addr, ph, d, list) {
+			return nil, false
+		}
+		inLoop[s] = true
+	}
+	outside := func(v ssa.Value) bool {
+		if in, isIn := v.(ssa.Instruction); isIn && in.Block() != nil {
+			return !l.Blocks[in.Block()]
+		}
+		return true
+	}
+	// the species of the current position: *(&S[c+d])
+	isElem := func(v ssa.Value) bool {
+		ld, ok := v.(*ssa.UnOp)
+		if !ok || ld.Op != token.MUL {
+			return false
+		}
+		ia, isIA := ld.X.(*ssa.IndexAddr)
+		return isIA && c02CounterPlus(ia.Index, ph) == d && w.tm.Of(ia.X).String() == list
+	}
+	paths, complete := EnumIterPaths(w.fn, l, 500)
+	if !complete {
+		return nil, false
+	}
+	var R, V ssa.Value
+	nBack := 0
+	for _, ip := range paths {
+		if ip.End != "back" {
+			if ip.End == "exit" && len(ip.Blocks) == 2 && ip.Blocks[0] == l.Header {
+				continue // exhaustion
+			}
+			return nil, false
+		}
+		nBack++
+		var last *ssa.Store
+		for _, b := range ip.Blocks[:len(ip.Blocks)-1] {
+			for _, in := range b.Instrs {
+				if s, ok := in.(*ssa.Store); ok && inLoop[s] {
+					last = s
+				}
+			}
+		}
+		if last == nil {
+			return nil, false // the species of this iteration keeps its old quota
+		}
+		isZero := IsConstIntValue(last.Val, 0)
+		if !isZero {
+			if !outside(last.Val) || (V != nil && V != last.Val) {
+				return nil, false
+			}
+			V = last.Val
+		}
+		okPath := false
+		for _, g := range ip.Conds {
+			x, y, op, isCmp := CmpFact(g.Cond, g.True)
+			if !isCmp || !l.Blocks[g.At] {
+				continue
+			}
+			if (isZero && op != token.NEQ) || (!isZero && op != token.EQL) {
+				continue
+			}
+			if isElem(y) && !isElem(x) {
+				x, y = y, x
+			}
+			if !isElem(x) || isElem(y) || !outside(y) {
+				continue
+			}
+			if R != nil && R != y {
+				continue
+			}
+			R, okPath = y, true
+		}
+		if !okPath {
+			return nil, false
+		}
+	}
+	if R == nil || V == nil || nBack == 0 {
+		return nil, false
+	}
+	if ok, _ := c02RecipientExists(w.fn, w.tm, loops, R); !ok {
+		return nil, false
+	}
+	// the list is not replaced on a way to the loop
+	for _, s := range FieldStores(w.fn, w.listFld) {
+		if s.Block() == l.Header || c15ReachableFrom(s.Block().Succs)[l.Header] {
+			return nil, false
+		}
+	}
+	return V, true
+}
+
+// ---------------------------------------------------------------------------
+// "every element different from x, in order" written with slices.DeleteFunc
+
+// c02FilteredByIdentity: v is the list `what` (given by its origin term, e.g. recv.Organisms) without the elements
+// identical to parameter number param of fn, the others in their order - written with the standard library:
+//
+//	slices.DeleteFunc(<what, or a private plain copy of it>, func(o *T) bool { return o == x })
+//
+// That is the same list as the one built by `for _, o := range what { if o != x { out = append(out, o) } }`.
+// Established:
+//   - v is the result of slices.DeleteFunc (documented: removes the elements for which the predicate holds, keeps the
+//     others in their order), applied to `what` or a copy that nothing else sees, and the result is only measured and
+//     stored (c10OrderKeepingDelete - the order fact C10.4 uses for the same function);
+//   - the predicate is a function literal made in fn whose every return yields `element == x`: the comparison itself
+//     (any spelling, CmpFact), or the constant true behind an outcome that says element == x / the constant false
+//     behind an outcome that says element != x; the element is the literal's parameter and x is the content of a
+//     captured variable that fn assigns exactly once, before the literal is made, with its parameter (c15CapturedValue),
+//     and the literal does nothing else (no calls, no stores).
+func c02FilteredByIdentity(tm *Termer, fn *ssa.Function, v ssa.Value, what string, param int) bool {
+	call, ok := v.(*ssa.Call)
+	if !ok || call.Call.IsInvoke() || len(call.Call.Args) != 2 || param >= len(fn.Params) {
+		return false
+	}
+	if name, _ := calleeName(&call.Call); !strings.HasPrefix(name, "slices.DeleteFunc[") {
+		return false
+	}
+	if !c10OrderKeepingDelete(tm, v, what) {
+		return false
+	}
+	mc, isMC := call.Call.Args[1].(*ssa.MakeClosure)
+	if !isMC || mc.Parent() != fn {
+		return false
+	}
+	pred, _ := mc.Fn.(*ssa.Function)
+	if pred == nil || len(pred.Params) != 1 || pred.Recover != nil || len(pred.Blocks) == 0 {
+		return false
+	}
+	elem := ssa.Value(pred.Params[0])
+	target := ssa.Value(fn.Params[param])
+	// the fact `element op x`
+	isFact := func(x, y ssa.Value, op, want token.Token) bool {
+		if op != want {
+			return false
+		}
+		if y == elem {
+			x, y = y, x
+		}
+		return x == elem && c15CapturedValue(mc, pred, y) == target
+	}
+	nRet := 0
+	for _, b := range pred.Blocks {
+		for _, in := range b.Instrs {
+			switch x := in.(type) {
+			case *ssa.Store, *ssa.MapUpdate, *ssa.Send, *ssa.Go, *ssa.Defer, *ssa.Call, *ssa.Panic:
+				return false
+			case *ssa.Return:
+				if len(x.Results) != 1 {
+					return false
+				}
+				nRet++
+				res := x.Results[0]
+				okRet := false
+				switch {
+				case IsConstBool(res, true), IsConstBool(res, false):
+					want := token.EQL
+					if IsConstBool(res, false) {
+						want = token.NEQ
+					}
+					for _, g := range Guards(b) {
+						if cx, cy, op, isCmp := CmpFact(g.Cond, g.True); isCmp && isFact(cx, cy, op, want) {
+							okRet = true
+						}
+					}
+				default:
+					if cx, cy, op, isCmp := CmpFact(res, true); isCmp && isFact(cx, cy, op, token.EQL) {
+						okRet = true
+					}
+				}
+				if !okRet {
+					return false
+				}
+			}
+		}
+	}
+	return nRet > 0
 }
